@@ -3,6 +3,7 @@ package c03
 import (
 	"fmt"
 	"os"
+	"strings"
 	"testing"
 )
 
@@ -74,5 +75,39 @@ func TestDevStrata(t *testing.T) {
 				}
 			}
 		}
+	}
+}
+
+// TestDevReaderStack measures, on the tree it is built against, the smallest
+// power-of-two goroutine stack ceiling under which a reader-only worker
+// survives the deepest parses the reader accepts.
+func TestDevReaderStack(t *testing.T) {
+	if os.Getenv("C03_READERSTACK") == "" {
+		t.Skip()
+	}
+	texts := map[string]string{
+		"paren-nest-10000":        nestText("(", ")", "", 10000),
+		"brace-nest-10000":        nestText("[", "]", "", 10000),
+		"quote-run-9999":          strings.Repeat("'", 9999) + "a",
+		"exprlambda-run-9999":     strings.Repeat("#^", 9999) + "a",
+		"quote-paren-alt-5000":    nestText("'(", ")", "a", 4999),
+		"quote-exprlambda-5000":   strings.Repeat("'#^", 4999) + "a",
+		"quote-run-10^6-rejected": strings.Repeat("'", 1000000) + "a",
+		"paren-unclosed-10^6":     strings.Repeat("(", 1000000),
+	}
+	for name, src := range texts {
+		smallest := -1
+		sig := ""
+		for c := 64 << 10; c <= 64<<20; c *= 2 {
+			k := kase{Space: "dev", Mode: "read4", Limits: "none", Stack: c, Stratum: name}
+			k.setSrc(src)
+			rp, f := runCaseIsolated(k)
+			if f == nil && rp.Err == "" {
+				smallest = c
+				sig = rp.Obs[name]
+				break
+			}
+		}
+		fmt.Printf("%-26s survives from ceiling %8d KiB   %s\n", name, smallest>>10, sig)
 	}
 }
